@@ -37,10 +37,10 @@ def load_known(prop):
 
 
 def run_worker(job):
-    """Runs one shard; an inconclusive shard (timeout, aborted paths, worker error) is retried once with a doubled budget."""
+    """Runs one shard; an inconclusive shard (timeout, aborted paths, worker error) is retried once with 1.5x the budget."""
     res = _run_worker_once(job)
     if res.get('verdict') in ('unknown', 'pre_unsat', 'error') and job.get('expect') != 'refuted' and not job.get('_retried'):
-        job2 = dict(job, timeout=job['timeout'] * 2, _retried=True)
+        job2 = dict(job, timeout=int(job['timeout'] * 1.5), _retried=True)
         res2 = _run_worker_once(job2)
         res2['retried'] = True
         res2['first_attempt'] = {'verdict': res.get('verdict'), 'error': res.get('error'), 'paths': res.get('num_paths')}
